@@ -10,7 +10,7 @@ COQ_CHECK = "M_Dpop.check_case"
 OBLIGATIONS = ["sem_join", "sem_projection", "sem_slice", "fao_optimal",
                "dpop_util_sem_partial", "dpop_util_sem", "dpop_choice_opt", "dpop_util_accumulates", "dpop_value_opt", "dpop_root_opt",
                "dpop_value_forward", "dpop_all_schedules_partial"]
-N_QUICK, N_THOROUGH = 600, 8000
+N_QUICK, N_THOROUGH = 400, 8000
 PARALLEL = 8
 SHARD = 40
 RULE = ("seeded random DCOPs: 1-7 variables, domain sizes 1-3 (values offset from their index), n-ary matrix "
